@@ -460,11 +460,19 @@ func (in *Inferer) expr(x fo.Expr, e *env) *Ty {
 	case *fo.Call:
 		ft := in.expr(x.Fn, e)
 		if len(x.TArgs) > 0 {
-			// explicit type arguments: only slice.New<T> () occurs
-			if v, ok := x.Fn.(*fo.Var); ok && v.Name == "slice.New" {
-				in.unify(ft, con("func", tUnit, con("slice", in.fromFo(x.TArgs[0], map[string]*Ty{}))))
-			} else {
+			// explicit type arguments of a library function, in the order the .foi declares its
+			// type parameters (which is the order of the variables of lib's scheme)
+			v, ok := x.Fn.(*fo.Var)
+			var s *Scheme
+			if ok {
+				s = lib(in, v.Name)
+			}
+			if s == nil || len(x.TArgs) > len(s.Vars) {
 				fail("explicit type arguments outside the C02 subset")
+			}
+			ft = s.T
+			for i, ta := range x.TArgs {
+				in.unify(s.Vars[i], in.fromFo(ta, map[string]*Ty{}))
 			}
 		}
 		var as []*Ty
